@@ -47,7 +47,9 @@ _BEH = st.one_of(
                            'args': st.lists(st.integers(0, 9), max_size=2),
                            'depth': st.integers(1, 2)}),
     st.fixed_dictionaries({'kind': st.just('unp'),
-                           'leaf': st.sampled_from(['lambda', 'lock']),
+                           'leaf': st.sampled_from(['lambda', 'lock', 'rlock',
+                                                    'generator', 'localcls',
+                                                    'memoryview', 'refuses']),
                            'wrap': st.lists(st.sampled_from(['list', 'dict']),
                                             max_size=2)}),
 )
